@@ -195,6 +195,7 @@ func c03Scenario(s *verifsim.Sim) {
 			st.sendNext(f)
 		case 1:
 			st.advance(T)
+			st.realJanitor() // the conn-state janitor ticks every few seconds in production
 		case 2:
 			if st.install(genRuleText(T, outs, 6), false) {
 				s.SeqStep("reload", "", true)
@@ -384,6 +385,32 @@ func (st *c03State) tuple(f *c03Flow) (netip.AddrPort, netip.AddrPort, uint8) {
 		proto = unix.IPPROTO_TCP
 	}
 	return netip.AddrPortFrom(f.p.src, f.p.sport), netip.AddrPortFrom(f.p.dst, f.p.dport), proto
+}
+
+// realJanitor runs one sweep of the production conn-state janitor
+// (ControlPlane.cleanupConnStateMapBeforeLocked) over the kernel maps at the simulated time. The
+// statement lets tracking end after the documented idle timeouts only, so a sweep must be
+// invisible to the reference model: nothing is told to it.
+func (st *c03State) realJanitor() {
+	if !st.w.real || st.s.Failed() {
+		return
+	}
+	if !st.w.FlowMapsToKernel() {
+		return
+	}
+	now := st.now
+	verifJanitorClock = func(ts *unix.Timespec) error {
+		*ts = unix.NsecToTimespec(int64(now))
+		return nil
+	}
+	defer func() { verifJanitorClock = nil }()
+	cp := &ControlPlane{log: st.w.log, core: st.gen.core, controlPlaneDatapathJanitor: newControlPlaneDatapathJanitor()}
+	u, t := cp.cleanupConnStateMapBeforeLocked(false, 0)
+	if u.deleted+t.deleted > 0 {
+		st.s.Probe("kern.real-janitor-deleted")
+	}
+	st.s.Probe("kern.real-janitor-sweep")
+	st.w.FlowMapsFromKernel()
 }
 
 func (st *c03State) janitor(T *verifsim.Tape) {
